@@ -257,8 +257,8 @@ def gen_history(rng, n, delegation=True):
             else:
                 val = rng.choice(QVALS)
             t = [name, val]
-            if rng.random() < 0.15:
-                t.append("extra")
+            if rng.random() < 0.25:
+                t.append(rng.choice(QVALS + ["extra"]))     # a third element equal to some requested value must not count
             tags.append(t)
         if rng.random() < 0.1:
             tags.append([rng.choice(QNAMES)])          # bare tag
@@ -344,7 +344,7 @@ def canon_plan_impl(p):
 
 def canon_plan_model(p):
     q = [[it[0], it[1], sorted(it[2])] if it[0] == "#" else it for it in p["query"]]
-    return dict(p, query=q)
+    return {k: v for k, v in dict(p, query=q).items() if k != "ids_desc"}
 
 
 def impl_plans(filters, default_limit=None, max_limit=None):
@@ -511,6 +511,9 @@ def suite_plan(tier, seed):
     env.run(go())
     outs = model_batch("kvm.plan", [{k: v for k, v in c.items() if k != "_raw"} for c in cases], pid="KVM")
     for c, mo, io in zip(cases, outs, impls):
+        for p in mo:
+            if not p.get("ids_desc", True):
+                s.count("hypothesis_ids_desc_unmet")      # e.g. a 65-digit id next to its 64-digit prefix: outside the theorem
         mo = [canon_plan_model(p) for p in mo]
         multi = any("multi" in p["index"] for p in io)
         s.case(c["_raw"], nontrivial=bool(io) and (multi or len(io) < len(c["filters"])))
@@ -532,7 +535,8 @@ def suite_answer(tier, seed):
     s.rule = ("histories of 0-16 signed events loaded through the real LMDBStorage.add_event / WriterThread, then REQs of 1-6 generated "
               "filters; per plan the ordered id list of kv.executor on the plans of Subscription.prepare vs KVM.Exec.execute_one_plan on "
               "the keyspace dump (multi-index plans: as sets; when truncated: size and inclusion in the model's untruncated set); the "
-              "flattened answer of BaseStorage.subscribe (env.req) must equal the concatenation; non-trivial = some plan returns a "
+              "flattened answer of BaseStorage.subscribe (env.req) must equal the concatenation; the answer of run_single_query (internal API, "
+              "default_limit=600000, no cap) vs the model with those parameters; non-trivial = some plan returns a "
               "non-empty strict subset of the stored events")
     env = _env()
     rng = rng_for(seed, "kvanswer")
@@ -551,13 +555,18 @@ def suite_answer(tier, seed):
                 qs, plans = await impl_prepare(st, req)
                 per_plan = await impl_execute(st, plans)
                 flat, outcome = await impl_req(st, req)
+                single = [e.id async for e in st.run_single_query(list(qs))] if qs else []
                 reqs.append([wire_filter(q) for q in qs])
-                impls.append({"plans": per_plan, "flat": [e["id"] for e in flat], "outcome": outcome, "raw": req})
+                impls.append({"plans": per_plan, "flat": [e["id"] for e in flat], "outcome": outcome, "raw": req, "single": single})
             jobs.append((db, stored, reqs, impls))
             await close_store(st)
     env.run(go())
     for db, stored, reqs, impls in jobs:
         mouts = model_reqs(db, reqs, MAX_LIMIT)
+        souts = model_reqs(db, reqs, None, default_limit=600000)     # BaseStorage.run_single_query: no cap, default_limit=600000
+        for io, so in zip(impls, souts):
+            if sorted(io["single"]) != sorted(x for p in so for x in p["ids"]):
+                s.disagree({"filters": io["raw"], "path": "run_single_query", "stored": stored}, [p["ids"] for p in so], io["single"])
         for req, io, mo in zip(reqs, impls, mouts):
             brief = {"filters": io["raw"], "n_stored": len(stored)}
             nt = any(0 < len(p) < len(stored) for p in io["plans"])
@@ -668,8 +677,8 @@ def neighbours(rng, f, evs):
             cand = [i for i, p in enumerate(env.PUBS) if p in authors]
             who = rng.choice(cand) if cand and rng.random() < 0.7 else who
         k = rng.choice(kinds)
-        kind = rng.choice([k, k + 1, max(0, k - 1), k + 256, k])
-        if kind in (0, 3, 5) or 10000 <= kind < 40000:
+        kind = rng.choice([k, k + 1, max(0, k - 1), k + 256, k, 4294967295, 0x01000000])   # incl. the last key of the kinds index (02 ff ff ff ff ..)
+        if kind in (0, 3, 5) or 10000 <= kind < 40000 or kind < 0:
             kind = 1
         ts = rng.choice(tss + QTS[:3])
         tags = []
@@ -949,12 +958,12 @@ def suite_hostile(tier, seed):
 
 # ---- per-property entry points (used by harness/props/c01.py ... of the coordinator) --------------------------------------
 def suites_c01(tier, seed):
-    return [suite_hostile(tier, seed), suite_oracle(tier, seed, props=("c01",), name="oracle:kv-c01", label="kvc01"),
+    return [suite_corpus(tier, seed, only=("C01",)), suite_hostile(tier, seed), suite_oracle(tier, seed, props=("c01",), name="oracle:kv-c01", label="kvc01"),
             suite_answer(tier, seed)]
 
 
 def suites_c02(tier, seed):
-    return [suite_scan(tier, seed), suite_multi(tier, seed), suite_plan(tier, seed), suite_answer(tier, seed),
+    return [suite_corpus(tier, seed, only=("C02",)), suite_scan(tier, seed), suite_multi(tier, seed), suite_plan(tier, seed), suite_answer(tier, seed),
             suite_oracle(tier, seed, props=("c02",), name="oracle:kv-c02", label="kvc02")]
 
 
@@ -963,7 +972,7 @@ def suites_c11(tier, seed):
 
 
 def suites_c12(tier, seed):
-    return [suite_oracle(tier, seed, props=("c12",), name="oracle:kv-c12", label="kvc12")]
+    return [suite_corpus(tier, seed, only=("C12",)), suite_oracle(tier, seed, props=("c12",), name="oracle:kv-c12", label="kvc12")]
 
 
 # ---- corpus: minimised witnesses of the defects found (fixed ones must pass, open ones are reported under their class) -----
